@@ -537,3 +537,8 @@ MUTANTS = [
     {'id': 'n18a', 'desc': 'equivalent buffering test', 'file': 'src/lib/hash/bundled/sha2/sha2.c',
      'old': """    if (ctx->len + len < SHA256_BLOCK_SIZE) {""", 'new': """    if (len < tmp_len) {""", 'expect': None},
 ]
+
+
+# SESSION7 additions to the claim (clauses added in DESIGN section 12)
+CLAIM['technique'] += '; piece-loop rule (remainder and data position move together, linear values + Fourier-Motzkin)'
+CLAIM['text'] += ' C18-j: the bundled backend feeds long updates piecewise with the data pointer advancing by each piece.'
